@@ -49,6 +49,7 @@ macro_rules! dispatch {
             "C06" => $f(&props::c06::C06, $($arg),*),
             "C08" => $f(&props::c08::C08, $($arg),*),
             "C10" => $f(&props::c10::C10, $($arg),*),
+            "C12" => $f(&props::c12::C12, $($arg),*),
             other => {
                 println!("HARNESS-ERROR unknown property {other}");
                 EXIT_HARNESS
